@@ -21,13 +21,16 @@ type ErrCase struct {
 	ProjDir string `json:"proj_dir,omitempty"`
 	// Invoke: how spok is pointed at the project (sandbox.Box.Invoke)
 	Invoke string `json:"invoke,omitempty"`
-	Src    string `json:"src"`
+	// Outputs: "files" = standard output and error are regular files (sandbox.Box.FileOutputs)
+	Outputs string `json:"outputs,omitempty"`
+	Src     string `json:"src"`
 }
 
 func genErr(t *rapid.T) ErrCase {
 	c := genErrBody(t)
 	c.ProjDir = genProjDir(t)
 	c.Invoke = genInvoke(t)
+	c.Outputs = genOutputs(t)
 	return c
 }
 
@@ -62,9 +65,9 @@ func execErrBinary(s *ev.Shard, b *sandbox.Box, c ErrCase) *rp.Fail {
 	}()
 	select {
 	case <-done:
-	case <-time.After(20 * time.Second):
+	case <-time.After(90 * time.Second):
 		if s != nil {
-			fmt.Fprintln(os.Stderr, "WATCHDOG: parsing the case in flight made no progress for 20s")
+			fmt.Fprintln(os.Stderr, "WATCHDOG: parsing the case in flight made no progress for 90s")
 			os.Exit(3)
 		}
 		return &rp.Fail{Sig: "process-stalled", Size: len(c.Src), Msg: fmt.Sprintf("spokfile %q: parsing does not terminate", c.Src)}
@@ -81,6 +84,7 @@ func execErrBinary(s *ev.Shard, b *sandbox.Box, c ErrCase) *rp.Fail {
 	if err := b.ResetFor(c.ProjDir, c.Invoke); err != nil {
 		return &rp.Fail{Sig: "harness", Msg: err.Error()}
 	}
+	b.FileOutputs = c.Outputs == "files"
 	if err := writeProject(b, b.Proj, map[string]string{"spokfile": c.Src}); err != nil {
 		return &rp.Fail{Sig: "harness", Msg: err.Error()}
 	}
